@@ -1,9 +1,9 @@
 /-
-  Lemmas for GIV.Model.TsLife §1 (grace-period arithmetic), §2 (initial environment) and §7
-  (cmdExec attribution).  The regenerated numbers are hypotheses (`FGrace`, `FEnvVars`, `FExec`);
-  GIV/Props/C04.lean and C17.lean discharge them from GIV.Gen.TsLife.
+  Lemmas for GIV.Model.TsLifeDl §1 (grace-period arithmetic) and §7 (cmdExec attribution).
+  The regenerated numbers are hypotheses (`FGrace`, `FExec`); GIV/Props/C17.lean discharges them
+  from GIV.Gen.TsLifeDl.
 -/
-import GIV.Model.TsLife
+import GIV.Model.TsLifeDl
 
 namespace GIV.TsLife
 open GIV
@@ -12,10 +12,10 @@ open GIV
 
 /-- the numbers of RunT's deadline block as the property states them. -/
 class FGrace : Prop where
-  dflt : Gen.TsLife.defaultGraceNs = 100000000
-  div : Gen.TsLife.graceDivisor = 20
-  strict : Gen.TsLife.graceCmpStrict = true
-  reserved : Gen.TsLife.reservedGraces = 2
+  dflt : Gen.TsLifeDl.defaultGraceNs = 100000000
+  div : Gen.TsLifeDl.graceDivisor = 20
+  strict : Gen.TsLifeDl.graceCmpStrict = true
+  reserved : Gen.TsLifeDl.reservedGraces = 2
 
 theorem tdiv20_of_neg (t : Int) (h : t < 0) : Int.tdiv t 20 ≤ 0 := by
   have h1 : t = -(-t) := by omega
@@ -66,114 +66,12 @@ theorem ctxTimeout_pos_iff [FGrace] (t : Int) : 0 < ctxTimeout t ↔ 200000000 <
 theorem ctxTimeout_ge [FGrace] (t : Int) (h : 0 ≤ t) : 10 * ctxTimeout t ≥ min (10 * t - 2000000000) (9 * t) := by
   rw [ctxTimeout_eq, grace_eq, Int.tdiv_eq_ediv_of_nonneg h]; split <;> omega
 
-/-! ### §2 environment -/
-
-theorem lookupLast_none_of_forall (e : EnvList) (k : String) (h : ∀ kv ∈ e, kv.1 ≠ k) :
-    lookupLast e k = none := by
-  induction e with
-  | nil => rfl
-  | cons kv rest ih =>
-    obtain ⟨k', v⟩ := kv
-    have h1 := ih (fun x hx => h x (List.mem_cons_of_mem _ hx))
-    have h2 : k' ≠ k := h (k', v) (List.mem_cons_self ..)
-    simp [lookupLast, h1, h2]
-
-theorem lookupLast_append (a b : EnvList) (k : String) :
-    lookupLast (a ++ b) k = match lookupLast b k with
-      | some w => some w
-      | none => lookupLast a k := by
-  induction a with
-  | nil => cases h : lookupLast b k <;> simp [lookupLast, h]
-  | cons kv rest ih =>
-    obtain ⟨k', v⟩ := kv
-    simp only [List.cons_append, lookupLast, ih]
-    cases hb : lookupLast b k <;> simp
-
-theorem lookupLast_some_mem (e : EnvList) (k v : String) (h : lookupLast e k = some v) : (k, v) ∈ e := by
-  induction e with
-  | nil => simp [lookupLast] at h
-  | cons kv rest ih =>
-    obtain ⟨k', v'⟩ := kv
-    simp only [lookupLast] at h
-    cases hr : lookupLast rest k with
-    | some w =>
-      simp only [hr] at h
-      injection h with h; subst h
-      exact List.mem_cons_of_mem _ (ih hr)
-    | none =>
-      simp only [hr] at h
-      by_cases hk : k' = k
-      · simp only [hk, if_true] at h
-        injection h with h; subst h; subst hk
-        exact List.mem_cons_self ..
-      · simp [hk] at h
-
-theorem documentedPart_keys (host : EnvList) (wd : String) :
-    (documentedPart host wd).map (·.1) = Gen.TsLife.documentedVars.map (·.1) := by
-  simp [documentedPart, List.map_map, Function.comp_def]
-
-theorem passthroughPart_keys (host : EnvList) (kv : String × String) (h : kv ∈ passthroughPart host) :
-    kv.1 ∈ Gen.TsLife.passthroughVars ∧ kv.2 = hostGetenv host kv.1 := by
-  simp only [passthroughPart, List.mem_filterMap] at h
-  obtain ⟨k, hk, hs⟩ := h
-  split at hs
-  · cases hs
-  · injection hs with hs; subst hs; exact ⟨hk, rfl⟩
-
-/-- a name outside the built-in list and outside Setup's additions is not in the environment:
-host variables are invisible. -/
-theorem initialEnv_invisible (host : EnvList) (wd : String) (setup : EnvList) (k : String)
-    (hb : k ∉ builtinNames) (hs : k ∉ setup.map (·.1)) :
-    lookupLast (initialEnv host wd setup) k = none := by
-  apply lookupLast_none_of_forall
-  intro kv hkv hk
-  simp only [initialEnv, List.mem_append] at hkv
-  simp only [builtinNames, List.mem_append, not_or] at hb
-  rcases hkv with ((h | h) | h) | h
-  · apply hb.1.1
-    rw [← documentedPart_keys host wd, ← hk]
-    exact List.mem_map_of_mem h
-  · exact hb.1.2 (hk ▸ (passthroughPart_keys host kv h).1)
-  · exact hb.2 (hk ▸ List.mem_map_of_mem h)
-  · exact hs (hk ▸ List.mem_map_of_mem h)
-
-/-- whatever the environment holds for a name is: a documented value, the host's value of a
-pass-through variable, a tail value, or one of Setup's additions. -/
-theorem initialEnv_sources (host : EnvList) (wd : String) (setup : EnvList) (k v : String)
-    (h : lookupLast (initialEnv host wd setup) k = some v) :
-    (k, v) ∈ setup ∨ (k, v) ∈ Gen.TsLife.unixTailVars ∨
-    (k ∈ Gen.TsLife.passthroughVars ∧ v = hostGetenv host k) ∨
-    (∃ s, (k, s) ∈ Gen.TsLife.documentedVars ∧ v = evalSrc host wd s) := by
-  have hm := lookupLast_some_mem _ _ _ h
-  simp only [initialEnv, List.mem_append] at hm
-  rcases hm with ((h | h) | h) | h
-  · right; right; right
-    simp only [documentedPart, List.mem_map] at h
-    obtain ⟨⟨k', s⟩, hks, he⟩ := h
-    injection he with h1 h2
-    subst h1; subst h2
-    exact ⟨s, hks, rfl⟩
-  · right; right; left; exact passthroughPart_keys host (k, v) h
-  · right; left; exact h
-  · left; exact h
-
-/-- Setup's additions win over everything built in. -/
-theorem initialEnv_setup_wins (host : EnvList) (wd : String) (setup : EnvList) (k v : String)
-    (h : lookupLast setup k = some v) : lookupLast (initialEnv host wd setup) k = some v := by
-  simp [initialEnv, lookupLast_append, h]
-
-/-- without an addition by Setup the built-in part decides. -/
-theorem initialEnv_no_setup (host : EnvList) (wd : String) (setup : EnvList) (k : String)
-    (h : lookupLast setup k = none) :
-    lookupLast (initialEnv host wd setup) k = lookupLast (initialEnv host wd []) k := by
-  simp [initialEnv, lookupLast_append, h]
-
 /-! ### §7 cmdExec -/
 
 class FExec : Prop where
-  first : Gen.TsLife.timeoutCheckedFirst = true
-  msg : Gen.TsLife.timedOutMsg = "test timed out while running command"
-  negOk : Gen.TsLife.successNegFatal = true
+  first : Gen.TsLifeDl.timeoutCheckedFirst = true
+  msg : Gen.TsLifeDl.timedOutMsg = "test timed out while running command"
+  negOk : Gen.TsLifeDl.successNegFatal = true
 
 theorem cmdExec_timeout [F : FExec] (neg : Bool) :
     cmdExecOutcome neg true true = .fatal "test timed out while running command" := by
